@@ -7,7 +7,7 @@ CONSTANTS Depth
 
 Classes == {"identifier", "field", "unexported", "method", "nilderef", "nilderef-embedded", "mapfield-ok", "mapchain-missing", "index-range", "index-len", "index-empty", "index-neg", "index-str", "index-strlen", "index-kind", "index-nil",
             "slice-bound", "slice-kind", "operand-mul", "operand-add", "operand-neg", "operand-cmp", "calltarget", "calltarget-nil", "calltarget-nil-noargs", "range-invalid", "range-nilliteral",
-            "argcount", "argcount-jetfunc", "argtype", "argtype-iface", "argtype-iface-variadic", "argtype-iface-piped", "arg-invalid", "underscore", "underscore-jetfunc", "underscore-variadic", "argcount-variadic", "func", "func-wrapsrt", "argcount-jetfunc0", "argcount-jetfunc0-piped",
+            "argcount", "argcount-jetfunc", "argtype", "argtype-iface", "argtype-iface-variadic", "argtype-iface-piped", "arg-invalid", "underscore", "underscore-jetfunc", "underscore-variadic", "argcount-variadic", "func", "func-wrapsrt", "include-openfails", "argcount-jetfunc0", "argcount-jetfunc0-piped",
             "len-kind", "ints-range", "pipe-nonfunc", "argcount-piped-jetfunc", "argcount-piped"}
 Positions == {"print", "let", "set", "ifcond", "iflet", "rangecoll", "yieldarg", "yieldctx", "ycontentctx", "includectx", "return", "execctx", "yieldnoval", "yieldnoval0"}
 Places == {"main", "layout"}
@@ -15,6 +15,8 @@ PosKinds == {"include", "ycont", "ybody", "blockdef", "range", "iflet", "tryin",
 
 Failing(pos, class) ==
   LET e == Ex("err", class) IN
+  \* a template the loader has (Exists) but cannot open: an error at the include, like a missing one
+  IF class = "include-openfails" THEN <<Incl("ff", "openfails")>> ELSE
   CASE pos = "print"      -> <<P("ff", e)>>
     [] pos = "let"        -> <<LetS("ff", "x3", e)>>
     [] pos = "set"        -> <<SetS("ff", "s", e)>>
@@ -49,7 +51,7 @@ MkC(par) ==
       toplet == ~(pos = "print" /\ fill = 1)     \* without a top-level := the failing scope chain reaches the pool as it is
       \* the failing expression is first mentioned, harmlessly, in a branch that is never taken: an error is
       \* reported where it happens, not where its text first occurs
-      dead   == <<IfS("dead", Lit("false"), <<P("deadp", Ex("err", class))>>)>>
+      dead   == <<IfS("dead", Lit("false"), IF class = "include-openfails" THEN <<Incl("deadp", "openfails")>> ELSE <<P("deadp", Ex("err", class))>>)>>
       body   == dead \o <<T("pre")>> \o (IF toplet THEN <<LetS("ls", "s", Lit("s0"))>> ELSE <<>>) \o r.main \o <<T("post")>>
       blocks == r.bl \o <<BlockS("bpd", "bp", <<Par("p", Lit("dp"))>>, NoE, <<T("bp")>>), BlockS("b0d", "b0", <<>>, NoE, <<T("b0")>>),
                           BlockS("bqd", "bq", <<>>, NoE, <<T("bq0"), YContentCx("ffq", IF pos = "ycontentctx" THEN Ex("err", class) ELSE Lit("okctx")), T("bq1")>>)>>
@@ -65,7 +67,7 @@ MkC(par) ==
 cParams == {p \in PathsUpTo(PosKinds, Depth) \X Classes \X Positions \X Places \X (0..1) :
               /\ (p[5] = 1 => p[3] = "print")
               /\ (p[3] \in {"yieldnoval", "yieldnoval0"} => p[2] = "identifier")
-              /\ (p[2] \in {"pipe-nonfunc", "safewriter-notlast", "argcount-piped-jetfunc", "argcount-piped", "argtype-iface-piped", "argcount-jetfunc0-piped"} => p[3] = "print")
+              /\ (p[2] \in {"pipe-nonfunc", "safewriter-notlast", "argcount-piped-jetfunc", "argcount-piped", "argtype-iface-piped", "argcount-jetfunc0-piped", "include-openfails"} => p[3] = "print")
               /\ (p[2] \in {"range-invalid", "range-nilliteral"} => p[3] = "rangecoll")   \* nil is only an error as a range subject
               /\ (p[2] = "calltarget-nil-noargs" => p[3] \in {"print", "let", "ifcond", "rangecoll"})
               /\ (p[4] = "layout" => p[3] \in {"print", "let", "yieldarg"})}
